@@ -30,7 +30,8 @@ ALPHA1 = "qzQZ01"
 ALPHA2 = "jxJX98"
 TMPL = st.lists(st.sampled_from(["c", "c", "c", "c", " ", "%", "%s", "%(x)s", "{}", "{0}", "é", "\t", '"', "\\", "%d", "*"]),
                 min_size=1, max_size=12)
-MODES = ["client", "client", "raw", "early", "twice", "free", "nouser", "reuser", "client_context"]
+MODES = ["client", "client", "raw", "early", "twice", "free", "nouser", "reuser", "client_context", "overlimit", "overlimit_server",
+         "error_paths"]
 CASE = st.tuples(TMPL, st.sampled_from(MODES), st.sampled_from(["PASS", "pass", "PaSs"]), st.booleans())
 
 
@@ -53,9 +54,38 @@ def render(t, alpha):
 
 
 async def session(loop, pw, stored, mode, verb):
-    server = aioftp.Server([aioftp.User("bob", stored), aioftp.User("free", None)], path_io_factory=aioftp.MemoryPathIO)
+    limit = 1 if mode == "overlimit" else None
+    server = aioftp.Server([aioftp.User("bob", stored, maximum_connections=limit), aioftp.User("free", None)],
+                           path_io_factory=aioftp.MemoryPathIO, maximum_connections=2 if mode == "overlimit_server" else None)
     await server.start(HOST, PORT)
-    if mode == "client":
+    if mode in ("overlimit", "overlimit_server"):
+        # the account (or the server) is at its connection limit when another session asks for it
+        first = harness.Raw()
+        await first.connect()
+        await first.cmd("USER bob")
+        await first.cmd(verb + " " + pw)
+        second = harness.Raw()
+        await second.connect()
+        await second.cmd("USER bob")
+        await second.cmd(verb + " " + pw)
+        third = harness.Raw()
+        code, _ = await third.connect()
+        if code == "220":
+            await third.cmd("USER bob")
+        for r in (third, second, first):
+            r.close()
+    elif mode == "error_paths":
+        # logged in (or not), then commands that end in error replies, an internal error and an abrupt end
+        raw = harness.Raw()
+        await raw.connect()
+        await raw.cmd("USER bob")
+        await raw.cmd(verb + " " + pw)
+        for ln in ["CWD /nowhere", "RETR /nothing", "RNTO x", "FOO", "TYPE Z", "EPSV 7", "REST x", "MKD /d", "MKD /d", "USER bob", "PWD",
+                   verb + " " + pw, "DELE /d"]:
+            await raw.cmd(ln)
+        raw.send(verb + " " + pw)
+        raw.close()
+    elif mode == "client":
         c = aioftp.Client(path_io_factory=aioftp.MemoryPathIO)
         await c.connect(HOST, PORT)
         try:
